@@ -319,6 +319,26 @@ def cmp_atom(op, a, b):
     return SymEval(None).arith(op.capitalize(), a, b)
 
 
+def mk_minmax(name, a, b):
+    """min/max of two values, one spelling for a.min(b), b.min(a), std::cmp::min(a, b) and the integer inherent methods"""
+    if order_of(vkey(a)) > order_of(vkey(b)):
+        a, b = b, a
+    return app(name, a, b)
+
+
+def mk_ite(c, t, e):
+    """if c {t} else {e} with the condition in canonical polarity (if !c {a} else {b} == if c {b} else {a})"""
+    if isinstance(c, tuple) and c and c[0] == "bool":
+        return t if c[1] else e
+    if isinstance(c, Poly):
+        c2, pol = canon_cond(c, True)
+        if not pol:
+            c, t, e = c2, e, t
+    if vkey(t) == vkey(e):
+        return t
+    return app("ite", c, t, e)
+
+
 def build_match(s, arms, guarded=False):
     """normal form of `match s { pat_i => v_i }` for an opaque scrutinee (arms: [(pattern key text, value)]):
     - arms that are tuples of equal length distribute: match s {p => (a, b)} = (match s {p => a}, match s {p => b});
@@ -330,6 +350,12 @@ def build_match(s, arms, guarded=False):
     if not guarded and arms and all(isinstance(v, tuple) and len(v) == 2 and v[0] == "tuple" for v in vals) and len({len(v[1]) for v in vals}) == 1 \
             and len(vals[0][1]) > 0:
         return ("tuple", [build_match(s, [(k, v[1][i]) for k, v in arms]) for i in range(len(vals[0][1]))])
+    if not guarded and len(arms) == 2 and isinstance(s, Poly) and {k for k, _ in arms} in ({"True", "False"}, {"True", "'_'"}, {"False", "'_'"}):
+        # match b { true => A, false => B } is if b { A } else { B }
+        by = dict(arms)
+        tv = by.get("True", by.get("'_'"))
+        fv = by.get("False", by.get("'_'"))
+        return mk_ite(s, tv, fv)
     if not guarded and len(arms) == 2 and isinstance(s, Poly):
         by = {k.split(",")[0]: v for k, v in arms}
         if set(by) == {"('Ok'", "('Err'"} and all(isinstance(v, tuple) and len(v) == 2 and v[0] == "bool" for v in by.values()) \
@@ -822,11 +848,7 @@ class SymEval:
         c = self.eval(n["c"], env)
         t = self.eval(n["t"], env)
         e = self.eval(n["e"], env) if "e" in n else ("tuple", [])
-        if isinstance(c, tuple) and c and c[0] == "bool":
-            return t if c[1] else e
-        if vkey(t) == vkey(e):
-            return t
-        return app("ite", c, t, e)
+        return mk_ite(c, t, e)
 
     def opt_arms(self, s, arms_nodes, env, evalfn):
         """match / if-let over an ("opt", o, v) value: arms [(pattern node, body node)] -> normal form over o, or None"""
@@ -886,6 +908,8 @@ class SymEval:
         base = path.rsplit("::", 1)[-1] if path else "?"
         if path in IDENTITY_CALLS and len(args) == 1:
             return args[0]
+        if path in ("std::cmp::min", "std::cmp::max", "std::cmp::Ord::min", "std::cmp::Ord::max") and len(args) == 2:
+            return mk_minmax(path.rsplit("::", 1)[-1], args[0], args[1])
         mm = STD_NUM_RX.match(path or "")
         if mm:
             name = mm.group(2)
